@@ -259,6 +259,7 @@ mod verif_c19 {
     // @bounds 1 call, 2 lints x 3 settings
     // @functions RegisteredConstructor::allow, ::warn, ::deny, conversions::lint2lint
     // @timeout 600
+    // @mem 10
     #[kani::proof]
     #[kani::unwind(5)]
     fn c19_constructor_lints() {
@@ -271,7 +272,7 @@ mod verif_c19 {
     // @bounds 1 symbolic call on a lint table with one entry
     // @functions RegisteredConstructor::allow, ::warn, ::deny, conversions::lint2lint
     // @timeout 600
-    // @mem 24
+    // @mem 10
     #[kani::proof]
     #[kani::unwind(5)]
     fn c19_constructor_lints_override_one() {
@@ -284,7 +285,7 @@ mod verif_c19 {
     // @bounds 2 calls, 2 lints x 3 settings
     // @functions RegisteredConstructor::allow, ::warn, ::deny, conversions::lint2lint
     // @timeout 600
-    // @mem 24
+    // @mem 10
     #[kani::proof]
     #[kani::unwind(5)]
     fn c19_constructor_lints_override() {
